@@ -23,6 +23,8 @@ pub struct Cfg {
     pub min_frontier: usize,
     /// C11: keep the transcript hash chain
     pub record: bool,
+    /// C09: the history alphabet includes one undecodable answer per history
+    pub garbage: bool,
 }
 
 #[derive(Default)]
@@ -115,7 +117,7 @@ pub fn node(cfg: &Cfg, v: &dyn Visitor, path: &mut Vec<Step>, st: &mut Stats) {
         st.leaves += 1;
         return;
     }
-    let enabled = sys.enabled(cfg.max_out);
+    let enabled = sys.enabled(cfg.max_out, cfg.garbage);
     drop(sys);
     for s in enabled {
         path.push(s);
@@ -161,6 +163,7 @@ pub fn run(cfg: &Cfg, v: &dyn Visitor, sample_cap: usize) -> Stats {
                 fault: cfg.fault.clone(),
                 min_frontier: cfg.min_frontier,
                 record: cfg.record,
+                garbage: cfg.garbage,
             };
             let mut st = Stats {
                 samples: Some(Samples::new(2)),
@@ -172,7 +175,7 @@ pub fn run(cfg: &Cfg, v: &dyn Visitor, sample_cap: usize) -> Stats {
             let mut next = vec![];
             if st.failed_nodes == 0 {
                 let (sys, _) = replay_cfg(cfg, p, usize::MAX);
-                for s in sys.enabled(cfg.max_out) {
+                for s in sys.enabled(cfg.max_out, cfg.garbage) {
                     let mut c = p.clone();
                     c.push(s);
                     next.push(c);
